@@ -18,7 +18,7 @@ REPO = os.environ.get("VERIF_REPO", "/repo")
 SPECS = os.path.join(VERIF, "specs")
 HARNESS = os.path.join(VERIF, "harness")
 EVID = os.path.join(VERIF, "evidence")
-REPLAY_DIR = os.path.join(EVID, "replay")
+REPLAY_DIR = os.path.join(EVID, "replay") if not os.environ.get("VERIF_NO_EVIDENCE") else "/tmp/verif-seeded-replay"
 NCPU = os.cpu_count() or 4
 
 
@@ -61,9 +61,28 @@ def sh(cmd, **kw):
     return subprocess.run(cmd, **kw)
 
 
+_harness_copy = None
+
+
+def harness_dir():
+    """The Go harness module. With VERIF_REPO set (seeded-mutation experiments on a scratch worktree) a private copy
+    whose go.mod points at that tree is used, so /repo itself is never touched."""
+    global _harness_copy
+    if REPO == "/repo":
+        return HARNESS
+    if _harness_copy is None:
+        _harness_copy = os.path.join(workdir("x"), "harness")
+        shutil.copytree(HARNESS, _harness_copy)
+        gm = os.path.join(_harness_copy, "go.mod")
+        txt = open(gm).read().replace("=> /repo", "=> " + REPO)
+        open(gm, "w").write(txt)
+    return _harness_copy
+
+
 def go_build(pkg, out, tags="verif", overlay=True, race=False):
-    """Build harness/cmd/<pkg> against /repo's current working tree (hooks on)."""
-    gosum = os.path.join(HARNESS, "go.sum")
+    """Build harness/cmd/<pkg> against the repository's current working tree (hooks on)."""
+    hd = harness_dir()
+    gosum = os.path.join(hd, "go.sum")
     try:
         src = open(os.path.join(REPO, "go.sum")).read()
         if not os.path.exists(gosum) or open(gosum).read() != src:
@@ -86,7 +105,7 @@ def go_build(pkg, out, tags="verif", overlay=True, race=False):
         cmd += ["-overlay", ov]
     cmd += ["-o", out, "./cmd/" + pkg]
     t0 = time.time()
-    r = sh(cmd, cwd=HARNESS, env=goenv(), stdout=subprocess.PIPE, stderr=subprocess.STDOUT, text=True)
+    r = sh(cmd, cwd=hd, env=goenv(), stdout=subprocess.PIPE, stderr=subprocess.STDOUT, text=True)
     if r.returncode != 0:
         raise Inconclusive("go build %s failed:\n%s" % (pkg, r.stdout[-4000:]))
     return time.time() - t0
@@ -295,7 +314,8 @@ class Check:
             ev["coverage"]["notes"] = self.notes
         ev["coverage"].setdefault("samples", [])
         os.makedirs(EVID, exist_ok=True)
-        json.dump(ev, open(os.path.join(EVID, self.pid + ".json"), "w"), indent=1)
+        if not os.environ.get("VERIF_NO_EVIDENCE"):
+            json.dump(ev, open(os.path.join(EVID, self.pid + ".json"), "w"), indent=1)
         print("%s %s: %s in %.1fs; coverage: %s" % (
             self.pid, self.tier, "VIOLATIONS=%d" % len(self.violations) if rc else "ok",
             time.time() - self.t0,
